@@ -2,8 +2,11 @@
 C13 — the vector environment rejects misuse and survives worker faults without hanging.
 
 Correspondence: bounded op sequences (reset_async/reset_wait/step_async/step_wait/call_async/
-call_wait/set_attr/close, with and without timeout / terminate, legal and misused) × fault scripts
-(worker, command, occurrence, raise T | sleep | kill) are run against the REAL
+call_wait/set_attr, the synchronous wrappers reset/step/call/get_attr/render, close and garbage
+collection of an unclosed env; waits with timeout None / 0.25 / 0 / 0.001, close plain / timeout /
+timeout=0 / terminate; legal and misused) × fault scripts (worker, command, occurrence,
+raise T | sleep | stuck | kill; T ranges over builtin, user-defined, BaseException-only and — when the
+tree forwards them — oddly constructed / unpicklable exception classes) are run against the REAL
 `AsyncPettingZooVecEnv`, every scenario in its own child process (own session / process group,
 wall-clock guard per op, so a hang is an outcome `hang`, never a stuck harness), and against
 `Model/VecProto.lean` (`fixed = true`).  Compared per op: outcome (ok | error class | hang), `_state`,
@@ -13,7 +16,9 @@ Oracle (the statement itself, evaluated on the implementation's outputs only): m
 error class, state untouched, and without faults every legal call still succeeds; a scripted
 `raise T` reaches the caller as T; a timed wait on a sleeping worker is `multiprocessing.TimeoutError`;
 no call hangs; every `close()` returns within a bound, without raising, and leaves no worker alive;
-a second close is a no-op; use after close is `ClosedEnvironmentError`.
+a second close is a no-op; use after close is `ClosedEnvironmentError`; every value handed back
+carries the provenance (env index, step / call counter) of the call it belongs to, so a rejected
+call that disturbed a pending one shows up as a stale or missing result.
 
 Process layout: harness → K "zygote" runners (`python c13.py --zygote`, import agilerl once from
 VERIF_REPO, are child subreapers) → one forked child per scenario (setsid) → the env's worker
@@ -45,8 +50,15 @@ OP_BOUND_S = 2 * SLEEP_S + 6.0   # no reply from the scenario for this long ⇒ 
 CLOSE_SLACK_S = 3.0  # close() must return within (sleep still owed by scripted sleeps) + this
 MAX_TIMED = 4        # timed calls per scenario (keeps Σ timeouts well below SLEEP_S)
 
+PRE_SETTLE_S = 0.3   # extra pause before a call with a zero / tiny time budget (replies must be there)
+TMO = {0: None, 1: TIMEOUT_S, 2: 0, 3: 0.001}     # wire code of a timeout argument → seconds
+
 CMDS = ["reset", "step", "call", "set_attr"]
-EXC_NAMES = ["ValueError", "RuntimeError", "ZeroDivisionError", "CustomFault", "IndexError"]
+EXC_NAMES = ["ValueError", "RuntimeError", "ZeroDivisionError", "CustomFault", "IndexError",
+             "KeyboardInterrupt", "FileNotFoundError", "TwoArgsFault", "KwOnlyFault", "UnpicklableFault"]
+PLAIN_EXC = EXC_NAMES[:7]                 # forwarded by every tree we accept
+ODD_EXC = ["TwoArgsFault", "KwOnlyFault"]  # need the constructor-independent re-raise
+SYNC_OF = {"reset": "reset", "step": "step", "call": "call", "get_attr": "call", "render": "call"}
 PROTOCOL_ERRORS = {"AlreadyPendingCallError", "NoAsyncCallError", "ClosedEnvironmentError",
                    "mp.TimeoutError", "EOFError", "BrokenPipeError", "AttributeError", "KeyError", "TypeError"}
 ASYNC_OF = {"reset_async": ("reset", "reset"), "step_async": ("step", "step"), "call_async": ("call", "call")}
@@ -100,6 +112,35 @@ def apply_patch(patch: str | None) -> None:
         def _poll(self, timeout=None):
             return True if timeout is not None and timeout > 0 else orig(self, timeout)
         cls._poll_pipe_envs = _poll
+    elif patch == "sync_call_wipes_state":
+        orig_call = cls.call
+
+        def call(self, name, *a, **kw):
+            try:
+                return orig_call(self, name, *a, **kw)
+            finally:
+                self._state = m.AsyncState.DEFAULT
+        cls.call = call
+    elif patch == "stale_results":
+        orig_sw = cls.step_wait
+
+        def step_wait(self, timeout=None):
+            ret = orig_sw(self, timeout)
+            prev = getattr(self, "_prev_ret", ret)
+            self._prev_ret = ret
+            return prev
+        cls.step_wait = step_wait
+    elif patch == "zero_timeout_blocks":
+        orig_poll = cls._poll_pipe_envs
+
+        def _poll0(self, timeout=None):
+            return orig_poll(self, timeout if timeout else None)
+        cls._poll_pipe_envs = _poll0
+    elif patch == "drop_keyboardinterrupt":
+        src = __import__("inspect").getsource(m._async_worker).replace("except (KeyboardInterrupt, Exception):", "except Exception:")
+        ns = dict(m.__dict__)
+        exec(src, ns)          # noqa: S102 — self-test only, inside the scenario child
+        m._async_worker = ns["_async_worker"]
     else:
         raise ValueError(patch)
 
@@ -120,35 +161,23 @@ def scenario_child(scn: dict, wfd: int) -> None:
     n = scn["n"]
     script = [(w, c, k, kind, (SLEEP_S if kind == "sleep" else arg)) for (w, c, k, kind, arg) in scn["script"]]
     env = AsyncPettingZooVecEnv(make_fns(n, script))
-    out.write(json.dumps({"pids": [p.pid for p in env.processes]}) + "\n")
+    procs = list(env.processes)
+    out.write(json.dumps({"pids": [p.pid for p in procs]}) + "\n")
     for i, op in enumerate(scn["ops"]):
         name, args = op[0], op[1:]
-        tmo = TIMEOUT_S if (args and args[0]) else None
+        zero_budget = (name in WAIT_OF and args[0] in (2, 3)) or (name == "close" and (args[0] == 2 or args[1])) \
+            or name == "gc"
+        if zero_budget:
+            time.sleep(PRE_SETTLE_S)
+        val = None
         t0 = time.monotonic()
         try:
-            if name == "reset_async":
-                env.reset_async()
-            elif name == "reset_wait":
-                env.reset_wait(tmo)
-            elif name == "step_async":
-                env.step_async([[0, 0]] * n)
-            elif name == "step_wait":
-                env.step_wait(tmo)
-            elif name == "call_async":
-                env.call_async("probe")
-            elif name == "call_wait":
-                env.call_wait(tmo)
-            elif name == "set_attr":
-                env.set_attr("knob", i)
-            elif name == "close":
-                kw = {}
-                if args[0]:
-                    kw["timeout"] = TIMEOUT_S
-                if args[1]:
-                    kw["terminate"] = True
-                env.close(**kw)
+            if name == "gc":
+                import gc
+                env = None          # the only reference: __del__ → close(terminate=True)
+                gc.collect()
             else:
-                raise InfraError(f"unknown op {name}")
+                val = run_op(env, n, name, args, i)
             r = "ok"
         except InfraError:
             raise
@@ -156,16 +185,99 @@ def scenario_child(scn: dict, wfd: int) -> None:
             r = canon_exc(e, name)
         dt = time.monotonic() - t0
         time.sleep(SETTLE_S)
-        rec = {"i": i, "out": r, "state": env._state.value, "closed": int(bool(env.closed)), "dt": round(dt, 3)}
-        if name == "close":
-            rec["alive"] = [int(p.is_alive()) for p in env.processes]
+        if env is None:
+            rec = {"i": i, "out": r, "state": "gone", "closed": 1, "dt": round(dt, 3),
+                   "alive": [int(p.is_alive()) for p in procs]}
+        else:
+            rec = {"i": i, "out": r, "state": env._state.value, "closed": int(bool(env.closed)), "dt": round(dt, 3)}
+            if name == "close":
+                rec["alive"] = [int(p.is_alive()) for p in procs]
+        if val is not None:
+            rec["val"] = val
         out.write(json.dumps(rec) + "\n")
-    out.write(json.dumps({"end": 1, "alive": [int(p.is_alive()) for p in env.processes]}) + "\n")
+        if env is None:
+            break
+    out.write(json.dumps({"end": 1, "alive": [int(p.is_alive()) for p in procs]}) + "\n")
     out.flush()
     os._exit(0)
 
 
+def run_op(env, n: int, name: str, args: list, i: int):
+    """one public call; returns the provenance code of what it handed back (None if nothing)"""
+    import numpy as np
+    if name == "reset_async":
+        env.reset_async()
+    elif name == "reset_wait":
+        return provenance("r", env.reset_wait(TMO[args[0]]), n)
+    elif name == "step_async":
+        env.step_async([[0, 0]] * n)
+    elif name == "step_wait":
+        return provenance("s", env.step_wait(TMO[args[0]]), n)
+    elif name == "call_async":
+        env.call_async("probe")
+    elif name == "call_wait":
+        return provenance("c", env.call_wait(TMO[args[0]]), n)
+    elif name == "set_attr":
+        env.set_attr("knob", i)
+    elif name == "reset":
+        return provenance("r", env.reset(), n)
+    elif name == "step":
+        return provenance("s", env.step({a: np.zeros(n, dtype=np.int64) for a in env.agents}), n)
+    elif name == "call":
+        return provenance("c", env.call("probe"), n)
+    elif name == "get_attr":
+        return provenance("c", env.get_attr("gauge"), n)
+    elif name == "render":
+        return provenance("c", env.render(), n)
+    elif name == "close":
+        kw = {}
+        if args[0]:
+            kw["timeout"] = TMO[args[0]]
+        if args[1]:
+            kw["terminate"] = True
+        env.close(**kw)
+    else:
+        raise InfraError(f"unknown op {name}")
+    return None
+
+
+def provenance(kind: str, ret, n: int) -> str:
+    """`s3` = every sub-environment reports step 3 in every observation and reward;
+    `r2` = first observations taken after 2 steps; `c4` = every remote result is call 4.
+    Anything inconsistent (mixed counters, wrong env index, wrong shape) is spelled out."""
+    try:
+        ks, bad = set(), False
+        if kind in ("r", "s"):
+            obs = ret[0]
+            for a, arr in obs.items():
+                for j in range(n):
+                    bad |= int(arr[j][0]) != j
+                    ks.add(int(arr[j][1]))
+            if kind == "s":
+                for a, rew in ret[1].items():
+                    for j in range(n):
+                        ks.add(int(rew[j]))
+                        bad |= float(rew[j]) != int(rew[j])
+        else:
+            if len(ret) != n:
+                bad = True
+            for j, item in enumerate(ret):
+                bad |= int(item[0]) != j
+                ks.add(int(item[1]))
+        if not bad and len(ks) == 1:
+            return f"{kind}{ks.pop()}"
+        return f"{kind}?{'x' if bad else ''}{sorted(ks)}"
+    except Exception as e:  # noqa: BLE001
+        return f"{kind}?{type(e).__name__}"
+
+
 # ============================================================================ zygote
+def default_bound(scn: dict) -> float:
+    """silence for this long ⇒ `hang`: nothing legitimate takes longer than the scripted sleeps + slack"""
+    ns = sum(1 for f in scn["script"] if f[3] == "sleep")
+    return min(OP_BOUND_S, ns * SLEEP_S + 6.0)
+
+
 def pid_alive(pid: int) -> int:
     try:
         with open(f"/proc/{pid}/stat") as f:
@@ -227,7 +339,8 @@ def zygote_main() -> None:
                     os._exit(3)
         os.close(wfd)
         results, pids, ended, crash, buf = [], [], False, None, b""
-        deadline = time.monotonic() + OP_BOUND_S + 10
+        bound = float(scn.get("op_bound", default_bound(scn)))
+        deadline = time.monotonic() + bound + 10
         eof = False
         while not ended and not eof and crash is None:
             left = deadline - time.monotonic()
@@ -244,7 +357,7 @@ def zygote_main() -> None:
             while b"\n" in buf:
                 ln, buf = buf.split(b"\n", 1)
                 rec = json.loads(ln)
-                deadline = time.monotonic() + OP_BOUND_S
+                deadline = time.monotonic() + bound
                 if "pids" in rec:
                     pids = rec["pids"]
                 elif "end" in rec:
@@ -363,13 +476,19 @@ class Pool:
 
 
 # ============================================================================ model side
-def model_lines(scn: dict) -> list[str]:
-    parts = ["vecproto", "new", "1" if scn.get("fixed", True) else "0", str(scn["n"])]
+MODEL_OP = {"get_attr": "call", "render": "call"}
+
+
+def model_lines(scn: dict, variant: int) -> list[str]:
+    parts = ["vecproto", "new", str(scn.get("variant", variant)), str(scn["n"])]
     for (w, c, k, kind, arg) in scn["script"]:
         parts += [str(w), c, str(k), kind, str(EXC_NAMES.index(arg)) if kind == "raise" else "0"]
     lines = [" ".join(parts)]
     for op in scn["ops"]:
-        lines.append("vecproto op " + " ".join([op[0]] + [str(int(bool(a))) for a in op[1:]]))
+        if op[0] == "gc":
+            lines.append("vecproto op close 0 1")       # __del__ → close(terminate=True)
+        else:
+            lines.append("vecproto op " + " ".join([MODEL_OP.get(op[0], op[0])] + [str(int(bool(a))) for a in op[1:]]))
     return lines
 
 
@@ -380,6 +499,10 @@ def canon_model(line: str, opname: str) -> str:
     out, state, closed, alive = line.split(" ")
     if out.startswith("err:worker:"):
         out = "err:" + EXC_NAMES[int(out.split(":")[2])]
+    if out == "hang":
+        return "hang"
+    if opname == "gc":
+        return f"{out} gone {alive}"
     s = f"{out} {state} {closed}"
     if opname == "close" and out == "ok":
         s += " " + alive
@@ -390,6 +513,9 @@ def canon_impl(ans: dict, ops: list) -> list[str]:
     lines = []
     for rec, op in zip(ans["results"], ops):
         out = "ok" if rec["out"] == "ok" else "err:" + rec["out"]
+        if op[0] == "gc":
+            lines.append(f"{out} gone alive=" + "".join(map(str, rec["alive"])))
+            continue
         s = f"{out} {rec['state']} closed={rec['closed']}"
         if op[0] == "close" and out == "ok":
             s += " alive=" + "".join(map(str, rec["alive"]))
@@ -400,8 +526,40 @@ def canon_impl(ans: dict, ops: list) -> list[str]:
     return lines
 
 
+def model_trace(chk: Check, scns: list[dict], variant: int) -> list[list[str]]:
+    """raw model answers (one list per scenario, header stripped)"""
+    lines, spans = ["reset"], []
+    for scn in scns:
+        ml = model_lines(scn, variant)
+        spans.append((len(lines), len(ml)))
+        lines += ml
+    mout = chk.driver.run(lines)
+    chk.corr["model_lines"] += len(lines)
+    out = []
+    for scn, (a, ln) in zip(scns, spans):
+        raw = mout[a:a + ln]
+        if raw[0] != "ok":
+            raise InfraError(f"C13 model rejected scenario header {scn}: {raw[0]}")
+        out.append(raw[1:])
+    return out
+
+
 # ============================================================================ oracle
-def oracle(scn: dict, ans: dict) -> list[str]:
+def op_kind(name: str) -> str:
+    if name in ASYNC_OF:
+        return "async"
+    if name in WAIT_OF:
+        return "wait"
+    if name in SYNC_OF:
+        return "sync"
+    return name          # set_attr | close | gc
+
+
+def op_cmd(name: str) -> str:
+    return ASYNC_OF[name][0] if name in ASYNC_OF else WAIT_OF.get(name) or SYNC_OF.get(name) or name
+
+
+def oracle(scn: dict, ans: dict, variant: int = 2) -> list[str]:
     """the statement of C13 on the implementation's own outputs (no reference to the Lean model)"""
     problems = []
     ops, script = scn["ops"], scn["script"]
@@ -411,52 +569,63 @@ def oracle(scn: dict, ans: dict) -> list[str]:
     batches = {c: 0 for c in CMDS}          # commands of each kind delivered to (all) workers so far
     pending_batch = None
     sleep_owed = SLEEP_S * sum(1 for f in script if f[3] == "sleep")
+    has_stuck = any(f[3] == "stuck" for f in script)
     for i, op in enumerate(ops):
-        name = op[0]
+        name, kind = op[0], op_kind(op[0])
         if i >= len(res):
             if ans["hang_at"] == i:
-                extra = f"; workers alive meanwhile: {ans.get('alive_at_hang')}" if name == "close" else ""
-                problems.append(f"op {i} `{name}` did not return within {OP_BOUND_S:.0f}s (hang){extra}")
+                # documented: without a timeout a wait / close waits for as long as it takes
+                unbounded = has_stuck and ((kind == "wait" and not op[1]) or kind in ("sync", "set_attr")
+                                           or (kind == "close" and not op[1] and not op[2])
+                                           or (kind == "close" and op[1] and not op[2] and variant < 2 and state == "default"))
+                if not unbounded:
+                    extra = f"; workers alive meanwhile: {ans.get('alive_at_hang')}" if kind in ("close", "gc") else ""
+                    problems.append(f"op {i} `{name}` did not return within {scn.get('op_bound', default_bound(scn)):.0f}s (hang){extra}")
             break
         r = res[i]
         out = r["out"]
         # ---- misuse table
         expect = None
-        if closed and name != "close":
+        if closed and kind not in ("close", "gc"):
             expect = "ClosedEnvironmentError"
-        elif name in ASYNC_OF or name == "set_attr":
+        elif kind in ("async", "sync", "set_attr"):
             if state != "default":
                 expect = "AlreadyPendingCallError"
-        elif name in WAIT_OF:
+        elif kind == "wait":
             if state != WAIT_OF[name]:
                 expect = "NoAsyncCallError"
         if expect is not None:
             if out != expect:
                 problems.append(f"op {i} `{name}` in state {state}/closed={closed}: expected {expect}, got {out}")
             if r["state"] != state or r["closed"] != closed:
-                problems.append(f"op {i} misuse `{name}` changed the state {state}->{r['state']}")
-        elif name == "close":
-            bound = sleep_owed + CLOSE_SLACK_S
+                problems.append(f"op {i} rejected `{name}` changed the state {state}->{r['state']}")
+        elif kind in ("close", "gc"):
+            timed = kind == "close" and bool(op[1])
+            terminate = kind == "gc" or bool(op[2])
+            if terminate:
+                bound = CLOSE_SLACK_S
+            elif timed and (variant >= 2 or state != "default"):
+                bound = 2 * (TMO[op[1]] or 0) + CLOSE_SLACK_S + (sleep_owed if variant < 2 else 0)
+            else:
+                bound = sleep_owed + CLOSE_SLACK_S
+            what = "close()" if kind == "close" else "garbage collection of the unclosed env"
             if out != "ok":
-                problems.append(f"op {i} close() raised {out}; workers alive after it: {r.get('alive')}")
+                problems.append(f"op {i} {what} raised {out}; workers alive after it: {r.get('alive')}")
             else:
                 if any(r.get("alive", [])):
-                    problems.append(f"op {i} close() returned but workers are alive: {r['alive']}")
+                    problems.append(f"op {i} {what} returned but workers are alive: {r['alive']}")
                 if not r["closed"]:
-                    problems.append(f"op {i} close() returned but `closed` is False")
+                    problems.append(f"op {i} {what} returned but `closed` is False")
             if r["dt"] > bound:
-                problems.append(f"op {i} close() took {r['dt']}s > {bound}s")
+                problems.append(f"op {i} {what} took {r['dt']}s > {bound}s")
         else:
             # ---- a legal call
-            cmd = ASYNC_OF[name][0] if name in ASYNC_OF else (WAIT_OF.get(name) or "set_attr")
-            timed = bool(op[1]) if name in WAIT_OF else False
-            if name in ASYNC_OF or name == "set_attr":
-                b = batches[cmd]
-            else:
-                b = pending_batch
+            cmd = op_cmd(name)
+            timed = bool(op[1]) if kind == "wait" else False
+            b = pending_batch if kind == "wait" else batches[cmd]
             due = [f for f in script if f[1] == cmd and f[2] == b] if b is not None else []
+            consumes = kind in ("wait", "sync", "set_attr")
             if not fault_seen:
-                consumes = name in WAIT_OF or name == "set_attr"
                 if not consumes:
                     if out != "ok":
                         problems.append(f"op {i} legal `{name}` before any fault raised {out}")
@@ -464,35 +633,44 @@ def oracle(scn: dict, ans: dict) -> list[str]:
                         problems.append(f"op {i} `{name}` left state {r['state']}")
                 else:
                     raises = sorted({f[4] for f in due if f[3] == "raise"})
-                    sleeps = [f for f in due if f[3] == "sleep"]
+                    sleeps = [f for f in due if f[3] in ("sleep", "stuck")]
                     kills = [f for f in due if f[3] == "kill"]
                     if kills:
                         if out == "ok" or out in EXC_NAMES:
                             problems.append(f"op {i} `{name}`: a worker was killed but the caller saw {out}")
                     elif sleeps and timed:
                         if out != "mp.TimeoutError":
-                            problems.append(f"op {i} timed `{name}` on a sleeping worker: expected mp.TimeoutError, got {out}")
+                            problems.append(f"op {i} `{name}`(timeout={TMO[op[1]]}) on a sleeping worker: expected "
+                                            f"mp.TimeoutError, got {out}")
+                        elif r["dt"] > TMO[op[1]] + CLOSE_SLACK_S:
+                            problems.append(f"op {i} `{name}`(timeout={TMO[op[1]]}) reported its timeout after {r['dt']}s")
                     elif raises:
                         if out not in raises:
                             problems.append(f"op {i} `{name}`: sub-environment raised {raises}, caller saw {out}")
                     elif out != "ok":
-                        problems.append(f"op {i} legal `{name}` without a due fault raised {out}")
-                    if not kills and r["state"] != "default":
-                        problems.append(f"op {i} `{name}` left state {r['state']} instead of default")
+                        problems.append(f"op {i} legal `{name}`{'(timeout=%s)' % TMO[op[1]] if timed else ''} "
+                                        f"without a due fault raised {out}")
+                    if out == "ok" and not due and cmd != "set_attr":
+                        want = {"step": f"s{b + 1}", "reset": f"r{batches['step']}", "call": f"c{b + 1}"}[cmd]
+                        if r.get("val") != want:
+                            problems.append(f"op {i} `{name}` handed back {r.get('val')} — the results of this call "
+                                            f"carry {want} (stale, lost or mixed-up replies)")
                     if due:
                         fault_seen = True
-                    if sleeps and not timed:
+                    if [f for f in due if f[3] == "sleep"] and not timed:
                         sleep_owed = max(0.0, sleep_owed - SLEEP_S)
             else:
                 # after a fault: nothing may be invented — a worker exception type must be scripted
                 if out in EXC_NAMES and out not in {f[4] for f in script if f[3] == "raise"}:
                     problems.append(f"op {i} `{name}` raised {out}, which no sub-environment raises")
-            if out == "ok" and (name in ASYNC_OF):
+            if consumes and r["state"] != "default":
+                problems.append(f"op {i} `{name}` returned ({out}) but left the pending state `{r['state']}` behind")
+            if out == "ok" and kind == "async":
                 pending_batch = batches[cmd]
                 batches[cmd] += 1
-            elif name == "set_attr" and out != "AlreadyPendingCallError":
+            elif kind in ("sync", "set_attr"):
                 batches[cmd] += 1
-            if out != "ok" and name in ASYNC_OF:
+            if out != "ok" and kind in ("async", "sync") and not due:
                 fault_seen = True
         state, closed = r["state"], r["closed"]
     if closed and any(ans.get("final_alive", [])):
@@ -501,21 +679,39 @@ def oracle(scn: dict, ans: dict) -> list[str]:
 
 
 # ============================================================================ generators
+SYNC_NAMES = ["reset", "step", "call", "get_attr", "render"]
+
+
+def tmo_code(rng) -> int:
+    """None mostly; otherwise 0.25 s, 0 or 0.001 s"""
+    return rng.choice([0, 0, 0, 0, 1, 1, 2, 3])
+
+
 def legal_next(state: str, rng, bias_cmd: str | None):
     if state == "default":
-        names = ["reset_async", "step_async", "call_async", "set_attr"]
+        names = ["reset_async", "step_async", "call_async", "set_attr"] + SYNC_NAMES
         if bias_cmd and rng.random() < 0.6:
-            return ["set_attr"] if bias_cmd == "set_attr" else [bias_cmd + "_async"]
+            if bias_cmd == "set_attr":
+                return ["set_attr"]
+            sync = [k for k, v in SYNC_OF.items() if v == bias_cmd]
+            return [rng.choice(sync)] if rng.random() < 0.3 else [bias_cmd + "_async"]
         return [rng.choice(names)]
-    return [state + "_wait", int(rng.random() < 0.35)]
+    return [state + "_wait", tmo_code(rng)]
 
 
 def misuse_next(state: str, rng):
     if state == "default":
-        return [rng.choice(["reset_wait", "step_wait", "call_wait"]), int(rng.random() < 0.3)]
-    c = [["reset_async"], ["step_async"], ["call_async"], ["set_attr"]]
+        return [rng.choice(["reset_wait", "step_wait", "call_wait"]), tmo_code(rng)]
+    c = [["reset_async"], ["step_async"], ["call_async"], ["set_attr"]] + [[x] for x in SYNC_NAMES]
     c += [[w + "_wait", 0] for w in ("reset", "step", "call") if w != state]
     return rng.choice(c)
+
+
+CLOSE_KINDS = [[0, 0], [0, 0], [1, 0], [2, 0], [0, 1], "gc"]
+
+
+def close_ops(ck) -> list:
+    return [["gc"]] if ck == "gc" else [["close"] + list(ck)]
 
 
 def gen_ops(rng, length: int, p_misuse: float, bias_cmd: str | None, close_kind=None, after_close: int = 1):
@@ -534,16 +730,20 @@ def gen_ops(rng, length: int, p_misuse: float, bias_cmd: str | None, close_kind=
             state = ASYNC_OF[name][1]
         elif name in WAIT_OF and WAIT_OF[name] == state:
             state = "default"
-    ck = close_kind if close_kind is not None else rng.choice([[0, 0], [0, 0], [1, 0], [0, 1]])
-    ops.append(["close"] + list(ck))
-    for _ in range(after_close):
-        ops.append(rng.choice([["close", 0, 0], ["reset_async"], ["step_wait", 0], ["set_attr"], ["call_async"],
-                               ["close", 0, 1]]))
+    ck = close_kind if close_kind is not None else rng.choice(CLOSE_KINDS)
+    ops += close_ops(ck)
+    if ck != "gc":
+        for _ in range(after_close):
+            ops.append(rng.choice([["close", 0, 0], ["reset_async"], ["step_wait", 0], ["set_attr"], ["call_async"],
+                                   ["close", 0, 1], ["step"], ["get_attr"], ["gc"]]))
+            if ops[-1] == ["gc"]:
+                break
     return ops
 
 
-def drive_to(cmd: str, k: int, timed_last: bool):
-    """shortest legal sequence whose last call consumes the k-th batch of `cmd`"""
+def drive_to(cmd: str, k: int, tmo_last: int, rng=None):
+    """shortest legal sequence whose last call consumes the k-th batch of `cmd`
+    (`tmo_last` = timeout code of that last wait; with `rng`, some pairs use the synchronous wrapper)"""
     ops = []
     if cmd != "reset" and cmd != "set_attr":
         ops += [["reset_async"], ["reset_wait", 0]]
@@ -551,15 +751,17 @@ def drive_to(cmd: str, k: int, timed_last: bool):
         last = j == k
         if cmd == "set_attr":
             ops.append(["set_attr"])
+        elif rng is not None and not (last and tmo_last) and rng.random() < 0.4:
+            ops.append([rng.choice([x for x, v in SYNC_OF.items() if v == cmd])])
         else:
-            ops += [[cmd + "_async"], [cmd + "_wait", int(timed_last and last)]]
+            ops += [[cmd + "_async"], [cmd + "_wait", tmo_last if last else 0]]
     return ops
 
 
 def valid_scenario(scn: dict) -> bool:
     """correspondence-side restrictions (see chk.assumptions): sleeps on one worker only, ≤ 2 sleeps,
     bounded number of timed calls"""
-    sl = [f for f in scn["script"] if f[3] == "sleep"]
+    sl = [f for f in scn["script"] if f[3] in ("sleep", "stuck")]
     if len({f[0] for f in sl}) > 1 or len(sl) > 2:
         return False
     timed = sum(1 for op in scn["ops"] if (op[0] in WAIT_OF and op[1]) or (op[0] == "close" and op[1]))
@@ -569,40 +771,98 @@ def valid_scenario(scn: dict) -> bool:
     return len(raises) <= 1 and all(f[0] < scn["n"] for f in scn["script"])
 
 
-def gen_fault(rng, n: int, kind=None, exc=None):
-    kind = kind or rng.choice(["raise", "raise", "sleep", "kill"])
+def gen_fault(rng, n: int, excs: list, kind=None, exc=None):
+    kind = kind or rng.choice(["raise", "raise", "sleep", "kill", "stuck"])
     return [rng.randrange(n), rng.choice(CMDS), rng.choice([0, 0, 1, 2]), kind,
-            (exc or rng.choice(EXC_NAMES)) if kind == "raise" else None]
+            (exc or rng.choice(excs)) if kind == "raise" else None]
 
 
-def gen_quick(rng) -> list[dict]:
+def gen_directed(rng, excs: list) -> list[dict]:
+    """families aimed at one clause each; every quick run contains all of them"""
     scns = []
+    # (a) a REJECTED call leaves the environment exactly as if it had not been made: with a call of each kind
+    #     pending, every other entry point (async, set_attr, the synchronous wrappers, the wrong waits) is
+    #     rejected; the pending call must then deliver ITS results and later calls theirs (provenance)
+    for pend in ("reset", "step", "call"):
+        rejected = [["call"], ["get_attr"], ["render"], ["set_attr"], ["step"], ["reset"],
+                    ["reset_async"], ["step_async"], ["call_async"]]
+        rejected += [[w + "_wait", rng.choice([0, 1, 2])] for w in ("reset", "step", "call") if w != pend]
+        rng.shuffle(rejected)
+        pre = [] if pend == "reset" else [["reset"]]
+        ops = pre + [[pend + "_async"]] + rejected + [[pend + "_wait", 0], ["step"], ["call"], ["step_async"],
+                                                      rng.choice([["call"], ["get_attr"], ["render"], ["set_attr"], ["reset"], ["step"]]),
+                                                      ["step_wait", 0], ["get_attr"],
+                                                      ["reset"], ["step"]]
+        scns.append({"n": rng.choice([2, 3]), "script": [], "ops": ops + close_ops(rng.choice(CLOSE_KINDS))})
+    # (b) every timeout value is a timeout, and every close variant returns promptly with nobody left:
+    #     a sub-environment stuck for good / asleep / killed in a call of each kind
+    closes = [[0, 1], [2, 0], [1, 0], "gc", [0, 1], "gc", [2, 0], [2, 1], [1, 0]]
+    j = rng.randrange(len(closes))
+    for kind in ("stuck", "sleep", "kill"):
+        for cmd in ("reset", "step", "call"):
+            n = rng.choice([2, 3])
+            f = [rng.randrange(n), cmd, 0, kind, None]
+            pre = [] if cmd == "reset" else [["reset"]]
+            j += 1
+            ck = closes[j % len(closes)]
+            if kind == "stuck":
+                # pending → every bounded wait reports a timeout → close variant; or close straight away
+                if j % 2:
+                    ops = pre + [[cmd + "_async"], [cmd + "_wait", rng.choice([2, 3])], [cmd + "_async"],
+                                 [cmd + "_wait", rng.choice([1, 2])]] + close_ops(ck)
+                else:
+                    ops = pre + [[cmd + "_async"]] + close_ops(ck)
+            else:
+                ops = pre + [[cmd + "_async"]] + ([[cmd + "_wait", rng.choice([2, 3, 1])]] if j % 2 else []) + close_ops(ck)
+            if ck != "gc":
+                ops += [["close", 0, 0], [rng.choice(SYNC_NAMES)]]
+            scns.append({"n": n, "script": [f], "ops": ops})
+    # (c) the same exception TYPE reaches the caller: every class the tree forwards, at every command
+    pool = list(excs)
+    rng.shuffle(pool)
+    k = 0
+    for cmd in CMDS:
+        for exc in (["KeyboardInterrupt"] + [e for e in pool if e != "KeyboardInterrupt"][:1 + len(excs) // 4]):
+            n = rng.choice([2, 3])
+            occ = rng.choice([0, 1, 2]) if k % 2 else 0
+            k += 1
+            f = [rng.randrange(n), cmd, occ, "raise", exc]
+            ops = drive_to(cmd, occ, rng.choice([0, 0, 1, 2]) if cmd != "set_attr" else 0, rng)
+            ops += close_ops(rng.choice(CLOSE_KINDS))
+            scns.append({"n": n, "script": [f], "ops": ops})
+    return scns
+
+
+def gen_quick(rng, excs: list) -> list[dict]:
+    scns = gen_directed(rng, excs)
     # fault-free misuse walks
-    for _ in range(6):
+    for _ in range(5):
         scns.append({"n": rng.choice([1, 2, 3]), "script": [], "ops": gen_ops(rng, rng.randint(4, 9), 0.4, None)})
     # one fault, directed so that it fires, followed by a random continuation
     for kind in ("raise", "sleep", "kill"):
         for cmd in CMDS:
             n = rng.choice([2, 3])
             k = rng.choice([0, 1])
-            f = [rng.randrange(n), cmd, k, kind, rng.choice(EXC_NAMES) if kind == "raise" else None]
-            ops = drive_to(cmd, k, timed_last=(kind == "sleep" and rng.random() < 0.7))
+            f = [rng.randrange(n), cmd, k, kind, rng.choice(excs) if kind == "raise" else None]
+            tl = rng.choice([1, 1, 2, 3]) if (kind == "sleep" and rng.random() < 0.7) else 0
+            ops = drive_to(cmd, k, tl, rng)
             ops += gen_ops(rng, rng.randint(0, 3), 0.3, cmd)
             scns.append({"n": n, "script": [f], "ops": ops})
     # close while the faulty call is still pending
     for kind in ("raise", "sleep", "kill"):
         n, cmd = rng.choice([2, 3]), rng.choice(["reset", "step", "call"])
-        f = [rng.randrange(n), cmd, 0, kind, rng.choice(EXC_NAMES) if kind == "raise" else None]
+        f = [rng.randrange(n), cmd, 0, kind, rng.choice(excs) if kind == "raise" else None]
         pre = [] if cmd == "reset" else [["reset_async"], ["reset_wait", 0]]
-        ck = rng.choice([[0, 0], [1, 0], [0, 1]])
+        ck = rng.choice([[0, 0], [1, 0], [0, 1], [2, 0]])
         scns.append({"n": n, "script": [f], "ops": pre + [[cmd + "_async"], ["close"] + ck, ["close", 0, 0], ["step_async"]]})
     # several faults in different workers, random walks
     tries = 0
-    while len(scns) < 36 and tries < 400:
+    target = len(scns) + 10
+    while len(scns) < target and tries < 400:
         tries += 1
         n = rng.choice([2, 3, 3])
-        exc = rng.choice(EXC_NAMES)
-        script = [gen_fault(rng, n, exc=exc) for _ in range(rng.choice([1, 2, 2, 3]))]
+        exc = rng.choice(excs)
+        script = [gen_fault(rng, n, excs, exc=exc) for _ in range(rng.choice([1, 2, 2, 3]))]
         if len({(f[0], f[1], f[2]) for f in script}) < len(script):
             continue
         scn = {"n": n, "script": script, "ops": gen_ops(rng, rng.randint(4, 9), 0.2, rng.choice(script)[1])}
@@ -611,35 +871,49 @@ def gen_quick(rng) -> list[dict]:
     return scns
 
 
-def gen_thorough(rng) -> list[dict]:
-    scns = gen_quick(rng)
+def gen_thorough(rng, excs: list) -> list[dict]:
+    scns = gen_quick(rng, excs)
+    for _ in range(3):
+        scns += gen_directed(rng, excs)
     # fault matrix: every command × occurrence × worker × kind, consumed timed and untimed,
-    # closed gracefully / with timeout / with terminate, then used after close
+    # closed gracefully / with timeout / with terminate / collected, then used after close
     for cmd in CMDS:
         for k in (0, 1, 2):
             for n, w in ((2, 0), (2, 1), (3, 1), (3, 2)):
-                for kind in ("raise", "sleep", "kill"):
-                    f = [w, cmd, k, kind, rng.choice(EXC_NAMES) if kind == "raise" else None]
-                    timed = kind == "sleep" and cmd != "set_attr" and rng.random() < 0.6
-                    ops = drive_to(cmd, k, timed_last=timed)
+                for kind in ("raise", "sleep", "kill", "stuck"):
+                    f = [w, cmd, k, kind, rng.choice(excs) if kind == "raise" else None]
+                    if kind == "stuck":
+                        tl = rng.choice([1, 2, 3]) if cmd != "set_attr" else 0
+                    else:
+                        tl = rng.choice([1, 2, 3]) if (kind == "sleep" and cmd != "set_attr" and rng.random() < 0.6) else 0
+                    ops = drive_to(cmd, k, tl, rng)
                     ops += gen_ops(rng, rng.randint(0, 3), 0.3, cmd)
                     scns.append({"n": n, "script": [f], "ops": ops})
+    # every exception class at every command and occurrence
+    for exc in excs:
+        for cmd in CMDS:
+            for k in (0, 1, 2):
+                n = rng.choice([2, 3])
+                f = [rng.randrange(n), cmd, k, "raise", exc]
+                ops = drive_to(cmd, k, rng.choice([0, 0, 1, 2, 3]) if cmd != "set_attr" else 0, rng)
+                scns.append({"n": n, "script": [f], "ops": ops + close_ops(rng.choice(CLOSE_KINDS))})
     # close with the faulty call still pending: every command × kind × close variant
     for cmd in ("reset", "step", "call"):
-        for kind in ("raise", "sleep", "kill"):
-            for ck in ([0, 0], [1, 0], [0, 1]):
+        for kind in ("raise", "sleep", "kill", "stuck"):
+            for ck in ([0, 0], [1, 0], [2, 0], [0, 1], [2, 1], "gc"):
                 n = rng.choice([2, 3])
-                f = [rng.randrange(n), cmd, 0, kind, rng.choice(EXC_NAMES) if kind == "raise" else None]
+                f = [rng.randrange(n), cmd, 0, kind, rng.choice(excs) if kind == "raise" else None]
                 pre = [] if cmd == "reset" else [["reset_async"], ["reset_wait", 0]]
-                scns.append({"n": n, "script": [f], "ops": pre + [[cmd + "_async"], ["close"] + ck, ["close", 0, 0]]})
+                scns.append({"n": n, "script": [f], "ops": pre + [[cmd + "_async"]] + close_ops(ck) +
+                             ([["close", 0, 0]] if ck != "gc" else [])})
     # pairs of faults in different workers at the same or neighbouring commands
     tries = 0
     target = len(scns) + 400
     while len(scns) < target and tries < 4000:
         tries += 1
         n = rng.choice([2, 3, 4])
-        exc = rng.choice(EXC_NAMES)
-        script = [gen_fault(rng, n, exc=exc) for _ in range(rng.choice([2, 2, 3]))]
+        exc = rng.choice(excs)
+        script = [gen_fault(rng, n, excs, exc=exc) for _ in range(rng.choice([2, 2, 3]))]
         if len({(f[0], f[1], f[2]) for f in script}) < len(script):
             continue
         scn = {"n": n, "script": script, "ops": gen_ops(rng, rng.randint(4, 10), 0.2, rng.choice(script)[1],
@@ -652,33 +926,120 @@ def gen_thorough(rng) -> list[dict]:
 
 
 # ============================================================================ check
-def evaluate(chk: Check, pool: Pool, scns: list[dict]):
+class Ctx:
+    """what the probes found out about the tree under test"""
+    variant = 2            # model variant (see Model/VecProto.lean `parseVariant?`)
+    excs = list(PLAIN_EXC)  # exception classes the tree forwards with their own type
+    kbd_close = True       # close() copes with a pending call in which a sub-environment raised KeyboardInterrupt
+
+
+def keep(scn: dict, raw: list[str], ctx: Ctx) -> bool:
+    """scenarios the check does not run: the model predicts a call that never returns (an untimed wait /
+    close on a sub-environment that is stuck for good waits forever by documented semantics — or it is an
+    open known finding, which has its own probe); and, while the corresponding finding is open, the inputs
+    that would only reproduce it"""
+    if any(x.startswith("hang") for x in raw):
+        return False
+    if not ctx.kbd_close and any(f[3] == "raise" and f[4] == "KeyboardInterrupt" for f in scn["script"]):
+        state = "default"
+        for op, x in zip(scn["ops"], raw):
+            if op[0] in ("close", "gc") and state != "default":
+                return False
+            parts = x.split(" ")
+            state = parts[1] if len(parts) > 1 else state
+    return True
+
+
+def evaluate(chk: Check, pool: Pool, scns: list[dict], ctx: Ctx, raws=None):
     """→ per scenario (impl lines, model lines, diff index | None, oracle problems, answer)"""
     answers = pool.run_many(scns)
-    lines = ["reset"]
-    spans = []
-    for scn in scns:
-        ml = model_lines(scn)
-        spans.append((len(lines), len(ml)))
-        lines += ml
-    mout = chk.driver.run(lines)
-    chk.corr["model_lines"] += len(lines)
+    if raws is None:
+        raws = model_trace(chk, scns, ctx.variant)
     out = []
-    for scn, ans, (a, ln) in zip(scns, answers, spans):
-        raw = mout[a:a + ln]
-        if raw[0] != "ok":
-            raise InfraError(f"C13 model rejected scenario header {scn}: {raw[0]}")
-        model = [canon_model(x, op[0]) for x, op in zip(raw[1:], scn["ops"])]
+    for scn, ans, raw in zip(scns, answers, raws):
+        model = [canon_model(x, op[0]) for x, op in zip(raw, scn["ops"])]
+        if "gc" in [op[0] for op in scn["ops"]]:
+            model = model[:[op[0] for op in scn["ops"]].index("gc") + 1]
         impl = canon_impl(ans, scn["ops"])
-        model = [m.split(" ")[0] if m.startswith("hang") else m for m in model]
         diff = next((i for i, (x, y) in enumerate(zip(impl, model)) if x != y), None)
         if diff is None and len(impl) != len(model):
             diff = min(len(impl), len(model))
-        out.append((impl, model, diff, oracle(scn, ans), ans))
+        out.append((impl, model, diff, oracle(scn, ans, ctx.variant), ans))
     return out
 
 
-def shrink(chk: Check, pool: Pool, scn: dict, want_oracle: bool) -> dict:
+PROBES = {
+    "C13-close-timeout-ignored-when-idle": {
+        "n": 2, "script": [[0, "step", 0, "stuck", None]], "op_bound": 7,
+        "ops": [["step_async"], ["step_wait", 1], ["close", 1, 0]]},
+    "C13-close-pending-keyboardinterrupt": {
+        "n": 2, "script": [[1, "step", 0, "raise", "KeyboardInterrupt"]], "op_bound": 7,
+        "ops": [["step_async"], ["close", 0, 0], ["close", 0, 0]]},
+    "C13-exception-ctor-signature": {
+        "n": 2, "script": [[1, "step", 0, "raise", "TwoArgsFault"]], "op_bound": 7,
+        "ops": [["step_async"], ["step_wait", 0], ["close", 0, 0]]},
+    "C13-exception-ctor-signature/kw": {
+        "n": 2, "script": [[0, "call", 0, "raise", "KwOnlyFault"]], "op_bound": 7,
+        "ops": [["call"], ["close", 0, 0]]},
+    "C13-exception-unpicklable-hang": {
+        "n": 2, "script": [[1, "reset", 0, "raise", "UnpicklableFault"]], "op_bound": 7,
+        "ops": [["reset_async"], ["reset_wait", 0], ["close", 0, 0]]},
+}
+
+
+# how each open finding shows on the tree that has it (canonical impl lines); anything else the probe
+# observes is NOT that finding and is reported as a violation
+KNOWN_SIG = {
+    "C13-close-timeout-ignored-when-idle": ["ok step closed=0", "err:mp.TimeoutError default closed=0", "hang"],
+    "C13-close-pending-keyboardinterrupt": ["ok step closed=0", "err:KeyboardInterrupt default closed=0",
+                                            "ok default closed=1 alive=00"],
+    "C13-exception-ctor-signature": ["ok step closed=0", "err:TypeError default closed=0", "ok default closed=1 alive=00"],
+    "C13-exception-ctor-signature/kw": ["err:TypeError default closed=0", "ok default closed=1 alive=00"],
+    "C13-exception-unpicklable-hang": ["ok reset closed=0", "hang", "unreached"],
+}
+
+
+def run_probes(chk: Check, pool: Pool) -> Ctx:
+    """decide which variant of the code is under test; an open known finding is reported as such and the
+    generators then stay away from inputs that could only reproduce it"""
+    ctx = Ctx()
+    names = list(PROBES)
+    scns = [dict(PROBES[k], variant=2) for k in names]
+    res = evaluate(chk, pool, scns, ctx)
+    bad = {k: r for k, r in zip(names, res) if r[2] is not None or r[3]}
+    unsure = [k for k, r in bad.items() if r[0] != KNOWN_SIG[k]]
+    if unsure:      # not the exact known picture: must reproduce (timing assumptions)
+        again = evaluate(chk, pool, [dict(PROBES[k], variant=2) for k in unsure], ctx)
+        for k, r in zip(unsure, again):
+            if r[2] is None and not r[3]:
+                del bad[k]
+            else:
+                bad[k] = r
+    for k, (impl, model, diff, problems, ans) in bad.items():
+        fid = k.split("/")[0]
+        detail = (problems or [f"differs from the model at op {diff}: impl={impl[diff] if diff < len(impl) else None}"])[0]
+        if impl != KNOWN_SIG[k]:
+            chk.violation(f"probe {k}: {detail}", {"scenario": dict(PROBES[k], variant=2), "impl": impl, "model": model,
+                                                    "oracle_problems": problems, "hang_at": ans["hang_at"],
+                                                    "repo": str(REPO)}, no_input=not problems)
+            continue
+        chk.finding(fid, detail, {"scenario": PROBES[k], "impl": impl, "model": model, "oracle_problems": problems,
+                                  "hang_at": ans["hang_at"], "alive_at_hang": ans.get("alive_at_hang"),
+                                  "repo": str(REPO)})
+    if "C13-close-timeout-ignored-when-idle" in bad:
+        ctx.variant = 1
+    if "C13-close-pending-keyboardinterrupt" in bad:
+        ctx.kbd_close = False
+    if not any(k.startswith("C13-exception-ctor-signature") for k in bad):
+        ctx.excs += ODD_EXC
+    if "C13-exception-unpicklable-hang" not in bad:
+        ctx.excs.append("UnpicklableFault")
+    for k in names:
+        chk.case(["probe", k], nontrivial=True, tags=["probe", "probe-" + ("open" if k in bad else "pass")])
+    return ctx
+
+
+def shrink(chk: Check, pool: Pool, scn: dict, want_oracle: bool, ctx: Ctx) -> dict:
     """greedy parallel reduction: drop one op / one fault at a time while the failure persists"""
     def fails(res):
         impl, model, diff, problems, _ = res
@@ -688,15 +1049,18 @@ def shrink(chk: Check, pool: Pool, scn: dict, want_oracle: bool) -> dict:
         cands = []
         for i in range(len(cur["ops"])):
             c = dict(cur, ops=cur["ops"][:i] + cur["ops"][i + 1:])
-            if c["ops"]:
+            if c["ops"] and "gc" not in [o[0] for o in c["ops"][:-1]]:
                 cands.append(c)
         for i in range(len(cur["script"])):
             cands.append(dict(cur, script=cur["script"][:i] + cur["script"][i + 1:]))
         if cur["n"] > 1 and all(f[0] < cur["n"] - 1 for f in cur["script"]):
             cands.append(dict(cur, n=cur["n"] - 1))
-        if not cands:
+        raws = model_trace(chk, cands, ctx.variant) if cands else []
+        pairs = [(c, r) for c, r in zip(cands, raws) if keep(c, r, ctx)]
+        if not pairs:
             break
-        res = evaluate(chk, pool, cands)
+        cands, raws = [c for c, _ in pairs], [r for _, r in pairs]
+        res = evaluate(chk, pool, cands, ctx, raws)
         hit = next((c for c, r in zip(cands, res) if fails(r)), None)
         if hit is None:
             break
@@ -704,16 +1068,18 @@ def shrink(chk: Check, pool: Pool, scn: dict, want_oracle: bool) -> dict:
     return cur
 
 
-def report(chk: Check, pool: Pool, scn: dict, res, do_shrink: bool = True) -> None:
+def report(chk: Check, pool: Pool, scn: dict, res, ctx: Ctx, do_shrink: bool = True) -> None:
     impl, model, diff, problems, ans = res
-    small = shrink(chk, pool, scn, bool(problems)) if do_shrink else scn
-    impl2, model2, diff2, problems2, ans2 = evaluate(chk, pool, [small])[0]
+    small = shrink(chk, pool, scn, bool(problems), ctx) if do_shrink else scn
+    impl2, model2, diff2, problems2, ans2 = evaluate(chk, pool, [small], ctx)[0] if small is not scn else res
     if bool(problems2) != bool(problems) or (not problems and diff2 is None):
         small, impl2, model2, diff2, problems2, ans2 = scn, impl, model, diff, problems, ans   # flaky shrink: keep the original
-    replay = {"scenario": small, "impl": impl2, "model": model2, "diff_at": diff2, "oracle_problems": problems2,
+    replay = {"scenario": dict(small, variant=ctx.variant), "impl": impl2, "model": model2, "diff_at": diff2,
+              "oracle_problems": problems2, "values": [r.get("val") for r in ans2["results"]],
               "timings": [r["dt"] for r in ans2["results"]], "hang_at": ans2["hang_at"],
               "alive_at_hang": ans2.get("alive_at_hang"), "repo": str(REPO),
-              "correspondence": "harness/c13.py vs Model/VecProto.lean (fixed=true)", "theorems": chk.gate["theorems"]}
+              "correspondence": f"harness/c13.py vs Model/VecProto.lean (variant {ctx.variant})",
+              "theorems": chk.gate["theorems"]}
     if problems2:
         chk.violation(problems2[0], replay)
     else:
@@ -727,74 +1093,104 @@ def report(chk: Check, pool: Pool, scn: dict, res, do_shrink: bool = True) -> No
 def tags_of(scn: dict, impl: list[str]) -> list[str]:
     t = [f"n{scn['n']}", f"faults{len(scn['script'])}"]
     t += [f"fault-{f[3]}-{f[1]}" for f in scn["script"]]
+    t += [f"exc-{f[4]}" for f in scn["script"] if f[3] == "raise"]
     for op, ln in zip(scn["ops"], impl):
         out = ln.split(" ")[0]
         t.append("out-" + (out if out in ("ok", "hang", "unreached") else out[4:] if out[4:] in PROTOCOL_ERRORS else "worker-exception"))
         if op[0] == "close":
-            t.append("close-" + ("terminate" if op[2] else "timeout" if op[1] else "plain"))
+            t.append("close-" + ("terminate" if op[2] else {0: "plain", 1: "timeout", 2: "timeout0"}[op[1]]))
+        elif op[0] == "gc":
+            t.append("close-gc")
+        elif op[0] in SYNC_OF:
+            t.append("sync-" + op[0])
+        elif op[0] in WAIT_OF and op[1]:
+            t.append(f"wait-timeout-{TMO[op[1]]}")
     return t
 
 
 def run(chk: Check) -> None:
     rng = chk.rng
-    chk.rule = ("op sequences over the 8 public calls (legal walks with 20–45% injected misuse, directed prefixes that "
-                "make a scripted fault fire, close plain/timeout/terminate in default and pending states, calls after "
-                "close) × fault scripts (worker, command ∈ reset/step/call/set_attr, occurrence 0..2, raise T | sleep | "
-                "kill; 0–3 faults, several workers) on 1–4 sub-environments, each in its own process group; distinct = "
-                "distinct (n, script, ops); non-trivial = some call returned an error (misuse or fault reached the caller)")
+    if os.environ.get("C13_DRIVER"):           # development only: a driver built from a scratch model
+        chk.driver.exe = Path(os.environ["C13_DRIVER"])
+    chk.rule = ("op sequences over the public calls (async/wait pairs, set_attr, the synchronous wrappers reset / step / "
+                "call / get_attr / render, close plain / timeout / timeout=0 / terminate, garbage collection of the "
+                "unclosed env; waits with timeout None / 0.25 / 0 / 0.001; legal walks with 20–45% injected misuse, "
+                "directed families: every rejected entry point × every pending kind followed by provenance-checked "
+                "results, every timeout value and close variant × stuck / sleeping / killed worker × pending kind, "
+                "every forwarded exception class × command) × fault scripts (worker, command ∈ reset/step/call/"
+                "set_attr, occurrence 0..2, raise T | sleep | stuck | kill; 0–3 faults, several workers) on 1–4 "
+                "sub-environments, each in its own process group; distinct = distinct (n, script, ops); non-trivial "
+                "= some call returned an error (misuse or fault reached the caller)")
     chk.assumptions = [
-        "PARTIAL: liveness, timing and OS-level process death are assumptions of the protocol model (A1–A7 in "
+        "PARTIAL: liveness, timing and OS-level process death are assumptions of the protocol model (A1–A8 in "
         "Model/VecProto.lean), validated only by fault injection, not derived: a live worker answers before the next "
-        "call (80 ms settle pause; a failing scenario must fail twice to be reported), send to an ended process raises BrokenPipeError, recv from it raises EOFError "
-        "(ConnectionResetError is canonicalised to these), a scripted sleep (4 s) outlasts every timed wait (0.25 s) "
-        "and is finite for an untimed one, terminate()/SIGKILL end a process",
-        "a real hang can only be observed as 'no answer within 14 s'; the model exhibits the protocol path to it",
+        "call (80 ms settle pause, 300 ms before a call with a zero / 1 ms budget; a failing scenario must fail twice "
+        "to be reported), send to an ended process raises BrokenPipeError, recv from it raises EOFError "
+        "(ConnectionResetError is canonicalised to these), a scripted sleep (4 s) outlasts every timed wait (≤ 0.25 s) "
+        "and is finite for an untimed one, a `stuck` sub-environment (1 h) never comes back, terminate()/SIGKILL end "
+        "a process",
+        "a real hang can only be observed as 'no answer within 14 s'; the model exhibits the protocol path to it; "
+        "scenarios in which the model predicts a call that never returns (an untimed wait / close on a stuck "
+        "sub-environment: documented 'never times out') are not run",
         "correspondence scenarios put scripted sleeps on one worker only, ≤ 2 sleeps, ≤ 4 timed calls, one exception "
         "type per script (error-queue order of simultaneous failures is scheduler-dependent); the theorems have no such bound",
         "close(timeout=None) waits for a sleeping worker by documented semantics; 'promptly' is checked as "
-        "(scripted sleep still owed) + 3 s",
+        "(scripted sleep still owed) + 3 s for an untimed close and 2·timeout + 3 s for close(timeout=…) / terminate / gc",
+        "exception marshalling (pickling the exception object, rebuilding it in the parent) is outside the Lean model "
+        "(assumption A8); it is covered by the exception-class sweep and two probes only",
     ]
     chk.trusted_extra.append("harness/envs_fault.py (scripted fault-injecting ParallelEnv) and the zygote/child runner of harness/c13.py")
     corpus = []
     for f in sorted((ROOT / "corpus" / "C13").glob("*.json")):
         c = json.loads(f.read_text())
         corpus.append(c.get("scenario", c))
-    scns = corpus + (gen_quick(rng) if chk.tier == "quick" else gen_thorough(rng))
-    k = min(16, os.cpu_count() or 4, max(2, len(scns)))
+    k = min(16, os.cpu_count() or 4)
     pool = Pool(k)
     leaked = 0
     try:
-        results = evaluate(chk, pool, scns)
-        ndiff, reported = 0, 0
+        ctx = run_probes(chk, pool)
+        gen = gen_quick(rng, ctx.excs) if chk.tier == "quick" else gen_thorough(rng, ctx.excs)
+        scns = corpus + gen
+        raws = model_trace(chk, scns, ctx.variant)
+        kept = [(sc, rw) for sc, rw in zip(scns, raws) if keep(sc, rw, ctx)]
+        chk.dist["not-run(model: never returns / open finding)"] += len(scns) - len(kept)
+        scns, raws = [sc for sc, _ in kept], [rw for _, rw in kept]
+        results = evaluate(chk, pool, scns, ctx, raws)
+        ndiff, reported, failing = 0, 0, []
         for scn, res in zip(scns, results):
             impl, model, diff, problems, ans = res
             nontrivial = any(not ln.startswith("ok") for ln in impl)
             chk.case([scn["n"], scn["script"], scn["ops"]], nontrivial=nontrivial,
                      sample={"n": scn["n"], "script": scn["script"], "ops": scn["ops"], "impl": impl},
                      tags=tags_of(scn, impl))
-            if diff is None and not problems:
-                continue
-            # timing assumptions (A1, A4) are validated, not guaranteed: a failure must reproduce
-            res2 = evaluate(chk, pool, [scn])[0]
+            if diff is not None or problems:
+                failing.append((scn, res))
+        # timing assumptions (A1, A4) are validated, not guaranteed: a failure must reproduce
+        again = evaluate(chk, pool, [sc for sc, _ in failing], ctx) if failing else []
+        for (scn, res), res2 in zip(failing, again):
             if res2[2] is None and not res2[3]:
                 chk.notes.append(f"not reproducible on a second run (timing assumption A1/A4, machine load?): "
-                                 f"{json.dumps(scn)} first run: diff_at={diff} oracle={problems[:1]}")
+                                 f"{json.dumps(scn)} first run: diff_at={res[2]} oracle={res[3][:1]}")
                 continue
             ndiff += res2[2] is not None
-            report(chk, pool, scn, res2, do_shrink=reported < 3)
+            if reported < 5:
+                report(chk, pool, scn, res2, ctx, do_shrink=reported < 2)
+            else:
+                chk.violation((res2[3] or ["implementation and VecProto model disagree"])[0], None, no_input=not res2[3])
             reported += 1
         chk.suite("vecproto-faults", len(scns), ndiff)
         if chk.tier == "thorough":
-            selftest(chk, pool)
+            selftest(chk, pool, ctx)
     finally:
         leaked = pool.close()
     if leaked:
         raise InfraError(f"C13: {leaked} process(es) carrying the run's marker were still alive at the end")
-    chk.notes.append(f"agilerl imported from {REPO} in runner, scenario and worker processes; "
+    chk.notes.append(f"agilerl imported from {REPO} in runner, scenario and worker processes; model variant "
+                     f"{ctx.variant}; exception classes swept: {ctx.excs}; "
                      f"{k} runners; no process of this run left behind (marker scan of /proc)")
 
 
-def selftest(chk: Check, pool: Pool) -> None:
+def selftest(chk: Check, pool: Pool, ctx: Ctx) -> None:
     """seeded faults, applied inside the scenario child only: each must be flagged"""
     probes = [
         ("skip_state_check", "step_async no longer checks the pending state",
@@ -805,8 +1201,17 @@ def selftest(chk: Check, pool: Pool) -> None:
          {"n": 2, "script": [[1, "step", 0, "raise", "ValueError"]], "ops": [["step_async"], ["step_wait", 0], ["close", 0, 0]]}),
         ("timeout_keeps_state", "timed waits ignore the timeout",
          {"n": 2, "script": [[1, "call", 0, "sleep", None]], "ops": [["call_async"], ["call_wait", 1], ["close", 0, 0]]}),
+        ("sync_call_wipes_state", "call() resets the state of another pending call when it is rejected",
+         {"n": 2, "script": [], "ops": [["step_async"], ["get_attr"], ["step_wait", 0], ["step"], ["close", 0, 0]]}),
+        ("stale_results", "step_wait hands back the previous step's results",
+         {"n": 2, "script": [], "ops": [["step"], ["step"], ["step_async"], ["step_wait", 0], ["close", 0, 0]]}),
+        ("zero_timeout_blocks", "timeout=0 means wait forever",
+         {"n": 2, "script": [[0, "step", 0, "stuck", None]], "op_bound": 6,
+          "ops": [["step_async"], ["step_wait", 2], ["close", 0, 1]]}),
+        ("drop_keyboardinterrupt", "the worker does not forward KeyboardInterrupt",
+         {"n": 2, "script": [[1, "reset", 0, "raise", "KeyboardInterrupt"]], "ops": [["reset_async"], ["reset_wait", 0], ["close", 0, 0]]}),
     ]
-    res = evaluate(chk, pool, [dict(s, patch=p) for p, _, s in probes])
+    res = evaluate(chk, pool, [dict(s, patch=p) for p, _, s in probes], ctx)
     for (p, what, _), (impl, model, diff, problems, _) in zip(probes, res):
         if diff is None and not problems:
             raise InfraError(f"C13 self-test: seeded fault `{p}` ({what}) was not noticed")
@@ -817,14 +1222,18 @@ def replay(chk: Check, path: str) -> int:
     c = json.loads(open(path).read())
     c = c.get("replay", c)
     scn = c.get("scenario", c)
+    if os.environ.get("C13_DRIVER"):
+        chk.driver.exe = Path(os.environ["C13_DRIVER"])
     pool = Pool(2)
     try:
-        impl, model, diff, problems, ans = evaluate(chk, pool, [scn])[0]
+        ctx = Ctx()
+        ctx.variant = int(scn.get("variant", 2))
+        impl, model, diff, problems, ans = evaluate(chk, pool, [scn], ctx)[0]
     finally:
         pool.close()
     print(json.dumps({"repo": str(REPO), "scenario": scn, "impl": impl, "model": model, "diff_at": diff,
-                      "oracle_problems": problems, "hang_at": ans["hang_at"],
-                      "alive_at_hang": ans.get("alive_at_hang"),
+                      "oracle_problems": problems, "values": [r.get("val") for r in ans["results"]],
+                      "hang_at": ans["hang_at"], "alive_at_hang": ans.get("alive_at_hang"),
                       "timings": [r["dt"] for r in ans["results"]]}, indent=1))
     if problems:
         print(f"VIOLATION property=C13 replay={path}")
